@@ -71,7 +71,16 @@ pub fn child(args: &[String]) -> i32 {
     let (r, cfg) = gen_case(seed, case, &focus);
     let weights = weights_for(&focus);
     let mut sink = Sink::new();
-    iohook::install(Mode::Observe, loss, Some(format!("{dir}.trace")));
+    // OS-level faults (`--fault rlimit:<which>`): the armed operation runs under a lowered RLIMIT_FSIZE, so the KERNEL fails every write /
+    // resize beyond the limit with EFBIG — through io_uring completions, `pwrite`, `ftruncate` alike (the I/O hook fails an operation before it
+    // is issued and never exercises the completion paths of the I/O back end)
+    let os_fault: Option<String> = fault.as_deref().and_then(|f| f.strip_prefix("rlimit:")).map(|s| s.to_string());
+    if os_fault.is_some() {
+        unsafe { libc::signal(libc::SIGXFSZ, libc::SIG_IGN) };
+        iohook::install(Mode::Observe, loss, None);
+    } else {
+        iohook::install(Mode::Observe, loss, Some(format!("{dir}.trace")));
+    }
     let mut r = r;
     let _ = r.next(); // the parent drew the number of steps from this generator
     {
@@ -83,15 +92,46 @@ pub fn child(args: &[String]) -> i32 {
             }
             if op.starting {
                 let base = iohook::begins();
+                if let Some(which) = &os_fault {
+                    let size = |name: &str| std::fs::metadata(format!("{dir}/{name}")).map(|m| m.len()).unwrap_or(0);
+                    let limit: u64 = match which.as_str() {
+                        // some hash-table page writes (post-meta, through the ring) fail
+                        "ht-half" => size("ht") / 2,
+                        "ht-3q" => size("ht") / 4 * 3,
+                        // growing the leaf file / writing leaves beyond its current end fails (pre-meta)
+                        "ln-end" => size("ln").max(4096),
+                        "bbn-end" => size("bbn").max(4096),
+                        // nearly everything fails, the WAL write included
+                        _ => 8192,
+                    };
+                    let mut rl = libc::rlimit { rlim_cur: 0, rlim_max: 0 };
+                    unsafe {
+                        libc::getrlimit(libc::RLIMIT_FSIZE, &mut rl);
+                        rl.rlim_cur = limit;
+                        libc::setrlimit(libc::RLIMIT_FSIZE, &rl);
+                    }
+                    return;
+                }
                 match &fault {
                     Some(f) => iohook::set_mode(Mode::FailAt(base + at, f == "persistent")),
                     None => iohook::set_mode(Mode::AbortAt(base + at)),
                 }
             } else {
                 // the operation returned without reaching event `at` (or the fault was injected and handled)
+                if os_fault.is_some() {
+                    let mut rl = libc::rlimit { rlim_cur: 0, rlim_max: 0 };
+                    unsafe {
+                        libc::getrlimit(libc::RLIMIT_FSIZE, &mut rl);
+                        rl.rlim_cur = rl.rlim_max;
+                        libc::setrlimit(libc::RLIMIT_FSIZE, &rl);
+                    }
+                }
                 iohook::set_mode(Mode::Off);
                 let st = iohook::uninstall();
-                let injected = st.as_ref().map(|s| s.failed_injected).unwrap_or(0);
+                let mut injected = st.as_ref().map(|s| s.failed_injected).unwrap_or(0);
+                if os_fault.is_some() && (op.poisoned || !op.alive) {
+                    injected = 1;
+                }
                 let mut rep = format!(
                     "completed alive={} poisoned={} injected={} seqn={} keys={}\n",
                     op.alive, op.poisoned, injected, op.seqn, op.committed.len()
@@ -407,10 +447,15 @@ pub fn run(args: &[String], out: &mut Sink) {
                         }
                         v
                     }
+                    // at event 0 additionally: the whole operation under an OS file-size limit (real EFBIG errors out of the kernel)
+                    "fault" if k == 0 => vec!["once".into(), "persistent".into(), "rlimit:ht-half".into(), "rlimit:ht-3q".into(), "rlimit:ln-end".into(), "rlimit:bbn-end".into(), "rlimit:tiny".into()],
                     "fault" => vec!["once".into(), "persistent".into()],
                     _ => vec!["none".into()],
                 };
                 for var in variants {
+                    if var.starts_with("rlimit:") {
+                        out.count("os_fault_children");
+                    }
                     let d = format!("/dev/shm/nomt-verif-db-{pid}-{seed}-{case}-c{si}-{k}");
                     let _ = std::fs::remove_dir_all(&d);
                     let mut cmd = Command::new(&exe);
@@ -589,6 +634,16 @@ pub fn run(args: &[String], out: &mut Sink) {
                                 // returned success (no abort, no fault) => must be the new state
                                 if rc == Some(0) && mode != "fault" && !is_post {
                                     out.fail(format!("{prop} operation returned but the reopened store shows the old state: {desc}"));
+                                }
+                                // OS-level fault: an operation that REPORTED SUCCESS on a healthy handle must be durable
+                                if var.starts_with("rlimit:") && child_rep.starts_with("completed alive=true poisoned=false") {
+                                    let seqn_rep: u32 = child_rep.split(' ').find_map(|t| t.strip_prefix("seqn=")).and_then(|x| x.trim().parse().ok()).unwrap_or(0);
+                                    if seqn_rep == info.post.1 && info.post.1 != info.pre.1 {
+                                        out.count("os_fault_op_succeeded");
+                                        if !is_post {
+                                            out.fail(format!("C14 operation reported success under an OS write limit but the reopened store shows the old state (a failed write was swallowed): {desc}"));
+                                        }
+                                    }
                                 }
                                 if is_post && !is_pre {
                                     out.count("reopened_post");
